@@ -332,6 +332,41 @@ def run_property(prop, tier, seed, timeout, args, t_start):
                     known_hits.append((hit[0], name))
                 else:
                     violations.append((name, path, True))
+                continue
+        if msg.startswith("UNSUPPORTED") and q in reg.contracts:
+            # the function's current source leaves the subset of Python the generator accepts (or calls a library function in a
+            # form no assumed contract covers): none of its obligations can be generated, hence none is discharged.  That is
+            # reported like any other undischarged obligation -- without a failing input.
+            name = f"{q.replace('pyrepseq.', '')}/not-verifiable[{msg[12:90].strip()}]"
+            path = write_replay(prop, q, name, None, {"engine": msg, "note": "no obligation of this function could be generated from its "
+                                                      "current source; every obligation of the function is undischarged"}, False)
+            violations.append((name, path, False))
+            engine_errors[:] = [(a, b) for a, b in engine_errors if not (a == q and b == msg)]
+
+    # ---- thorough tier: the concrete reading of every contract in the closure is also run against the real code over its
+    # falsifier scope (bounded, never counted as proof: it guards the contracts' executable reading and the assumed library
+    # contracts against the installed libraries)
+    proactive = []
+    if tier == "thorough" and not args.only:
+        from concurrent.futures import ThreadPoolExecutor
+        todo_f = [q for q in funcs if q in reg.contracts and reg.get(q).scope and not any(e[0] == q for e in errors)]
+
+        def _run(q):
+            return q, harness("falsify", {"qualname": q, "scope": reg.get(q).scope, "seed": seed, "budget": 1500}, timeout=3000)
+        with ThreadPoolExecutor(6) as ex:
+            for q, out in ex.map(_run, todo_f):
+                proactive.append({"function": q, "scope": reg.get(q).scope, "inputs_tried": out.get("tried"), "found": bool(out.get("found")),
+                                  "note": out.get("note") or out.get("error")})
+                if out.get("found"):
+                    name = f"{q.replace('pyrepseq.', '')}/bounded-falsifier[{','.join(out['report']['violations'])[:80]}]"
+                    if any(base_name(v[0]).split("/")[0] == name.split("/")[0] for v in violations):
+                        continue
+                    path = write_replay(prop, q, name, out["args"], {"report": out["report"], "note": "found by the bounded concrete run of the contract"}, True)
+                    hit = [k for k in open_known if k.get("obligation") == base_name(name)]
+                    if hit:
+                        known_hits.append((hit[0], name))
+                    else:
+                        violations.append((name, path, True))
 
     # ---- evidence
     assumed = set()
@@ -342,6 +377,9 @@ def run_property(prop, tier, seed, timeout, args, t_start):
     bounded = []
     for pr in plug_results:
         bounded.extend(pr.get("bounded_standins", []))
+    if proactive:
+        bounded.append({"what": "concrete evaluation of the contracts' clauses on the real code over the falsifier scopes (bounded; not proof)",
+                        "bound": "at most 1500 generated inputs per function", "runs": proactive})
     wall = round(time.time() - t_start, 2)
     ev = {
         "property_id": prop, "tier": tier, "seed": seed, "level": "proof",
